@@ -13,12 +13,28 @@ import (
 
 type traceFS struct {
 	billy.Filesystem
-	ops []string
+	ops      []string
+	failNext int // > 0: the failNext-th mutating call from now fails (storage fault injection)
+}
+
+var errInjected = fmt.Errorf("verif: injected storage fault")
+
+func (t *traceFS) fault() bool {
+	if t.failNext > 0 {
+		t.failNext--
+		if t.failNext == 0 {
+			return true
+		}
+	}
+	return false
 }
 
 func newTraceFS() *traceFS { return &traceFS{Filesystem: memfs.New()} }
 
 func (t *traceFS) OpenFile(name string, flag int, perm os.FileMode) (billy.File, error) {
+	if flag&(os.O_WRONLY|os.O_RDWR|os.O_TRUNC|os.O_CREATE) != 0 && t.fault() {
+		return nil, errInjected
+	}
 	if flag&os.O_TRUNC != 0 {
 		t.ops = append(t.ops, "trunc:"+name)
 	} else if flag&(os.O_WRONLY|os.O_RDWR) != 0 {
@@ -27,10 +43,16 @@ func (t *traceFS) OpenFile(name string, flag int, perm os.FileMode) (billy.File,
 	return t.Filesystem.OpenFile(name, flag, perm)
 }
 func (t *traceFS) Create(name string) (billy.File, error) {
+	if t.fault() {
+		return nil, errInjected
+	}
 	t.ops = append(t.ops, "trunc:"+name)
 	return t.Filesystem.Create(name)
 }
 func (t *traceFS) Rename(from, to string) error {
+	if t.fault() {
+		return errInjected
+	}
 	t.ops = append(t.ops, fmt.Sprintf("rename:%s->%s", from, to))
 	return t.Filesystem.Rename(from, to)
 }
